@@ -43,6 +43,9 @@ def cases(tier, seed):
         for cls in FULL:
             out.append({"kind": "full", "cls": "full:" + cls, "c": cls, "idx": idx, "seed": seed, "maxd": maxd, "dims": list(dims)})
             idx += 1
+    for r in range(12 if tier == "quick" else 80):
+        out.append({"kind": "history", "cls": "history", "idx": idx, "seed": seed})
+        idx += 1
     for cls in DEF:
         for r in range(rep):
             out.append({"kind": "deficient", "cls": "deficient:" + cls, "c": cls, "idx": idx, "seed": seed, "maxd": maxd})
@@ -55,7 +58,18 @@ def cases(tier, seed):
 
 
 def run_case(spec, ctx, R):
-    {"full": _full, "deficient": _deficient, "canonical": _canonical}[spec["kind"]](spec, ctx, R)
+    {"full": _full, "deficient": _deficient, "canonical": _canonical, "history": _history}[spec["kind"]](spec, ctx, R)
+
+
+def _history(spec, ctx, R):
+    """One buffer, many calls: the caller's own object, the same object updated in place, views that keep its address."""
+    rng = gen.rng_for(spec["seed"], "c06hist", spec["idx"])
+    m, n = [(4, 4), (5, 3), (3, 5), (6, 6), (2, 2), (7, 4)][spec["idx"] % 6]
+    A = refq.randq(rng, m, n)
+    ctx.distinct("history", A)
+    for lab, X in gen.history_forms(A):
+        judge(ctx, R, X, "qr_qua", ["gauss", "history:" + lab])
+    ctx.hit("history:one_buffer_many_calls")
 
 
 def _shape(rng, maxd, idx):
